@@ -11,10 +11,10 @@ import (
 
 // reviewedDroppedErrors: caller -> callee -> reason.
 var reviewedDroppedErrors = map[string]string{
-	"lib/model/account.NewRegistry -> (*lib/model/account.Registry).Get":                    "the five root account names are constants that pass the validator",
-	"(*cmd/commands.checkRunner).writeFile -> (*lib/journal.Builder).Add":                   "Add fails only for an unknown directive type; an *Assertion is known (F-directive-types)",
-	"(lib/reports/weights.Query).Execute$1 -> (*lib/reports/weights.Report).Add":            "Report.Add always returns nil",
-	"lib/model.FromStream$1 -> lib/common/cpr.ForEach":                                      "ForEach fails only when the context is cancelled, i.e. when a sibling stage has failed; that stage's error is what wg.Wait() returns next",
+	"lib/model/account.NewRegistry -> (*lib/model/account.Registry).Get":                     "the five root account names are constants that pass the validator",
+	"(*cmd/commands.checkRunner).writeFile -> (*lib/journal.Builder).Add":                    "Add fails only for an unknown directive type; an *Assertion is known (F-directive-types)",
+	"(lib/reports/weights.Query).Execute$1 -> (*lib/reports/weights.Report).Add":             "Report.Add always returns nil",
+	"lib/model.FromStream$1 -> lib/common/cpr.ForEach":                                       "ForEach fails only when the context is cancelled, i.e. when a sibling stage has failed; that stage's error is what wg.Wait() returns next",
 	"(*lib/common/table.TextRenderer).Render -> (*lib/common/table.TextRenderer).renderCell": "renderCell fails only for an unknown cell type (excluded by F-cells) or when the writer fails, which the following WriteString reports",
 	"(lib/journal/check.Error).Error -> (*lib/journal/printer.Printer).PrintDirectiveLn":     "writes into a strings.Builder, which cannot fail",
 }
